@@ -426,3 +426,52 @@ Section Model.
        h_req := Hreq (r_post (fst rs)); h_bal := Hbal (to_encoding (r_bal (fst rs)));
        h_root := Hroot (snd rs) |}.
 End Model.
+
+(* ---- the executable instance used by Run/C33.v: keys, values and outputs are byte
+        strings; a "digest" is the hashed object itself (an injective hash), the state
+        root being the values of a finite list of keys (the keys of the case). ---- *)
+Fixpoint bytes_eqb (a b : list N) : bool :=
+  match a, b with
+  | [], [] => true
+  | x :: a', y :: b' => (x =? y) && bytes_eqb a' b'
+  | _, _ => false
+  end.
+(* bytes.Compare(a, b) < 0 *)
+Fixpoint bytes_ltb (a b : list N) : bool :=
+  match a, b with
+  | [], [] => false
+  | [], _ :: _ => true
+  | _ :: _, [] => false
+  | x :: a', y :: b' => if x <? y then true else if y <? x then false else bytes_ltb a' b'
+  end.
+Fixpoint list_eqb {A} (eq : A -> A -> bool) (a b : list A) : bool :=
+  match a, b with
+  | [], [] => true
+  | x :: a', y :: b' => eq x y && list_eqb eq a' b'
+  | _, _ => false
+  end.
+
+Definition bkey := list N.
+Inductive digest :=
+| DBal (b : bal bkey bkey)
+| DRec (l : list (receipt bkey))
+| DReq (o : bkey)
+| DRoot (l : list bkey).
+
+Definition entry_eqb (a b : N * bkey) : bool := (fst a =? fst b) && bytes_eqb (snd a) (snd b).
+Definition bal_eqb (a b : bal bkey bkey) : bool :=
+  list_eqb (fun x y => bytes_eqb (fst x) (fst y) && list_eqb entry_eqb (snd x) (snd y))
+           (b_w _ _ a) (b_w _ _ b)
+  && list_eqb bytes_eqb (b_r _ _ a) (b_r _ _ b).
+Definition receipt_eqb (a b : receipt bkey) : bool :=
+  bytes_eqb (rc_out _ a) (rc_out _ b) && (rc_used _ a =? rc_used _ b)
+  && (rc_cum _ a =? rc_cum _ b) && (rc_log0 _ a =? rc_log0 _ b).
+Definition digest_eqb (a b : digest) : bool :=
+  match a, b with
+  | DBal x, DBal y => bal_eqb x y
+  | DRec x, DRec y => list_eqb receipt_eqb x y
+  | DReq x, DReq y => bytes_eqb x y
+  | DRoot x, DRoot y => list_eqb bytes_eqb x y
+  | _, _ => false
+  end.
+Definition root_on (keys : list bkey) (s : view bkey bkey) : digest := DRoot (map s keys).
